@@ -199,6 +199,8 @@ func (m *Map) Range(f func(key, value any) bool) {
 				moved = true
 			}
 		}
+	} else if len(kk) >= 2 {
+		mapIdentity(len(kk) - 1)
 	}
 	if len(kk) >= 2 {
 		noteRange(moved)
